@@ -57,6 +57,7 @@ def _run_variant(args):
             cg = CallGraph(ix)
             chk = Check(prop, "quick", 0, ix, cg, quiet=True)
             mod.run(chk)
+            chk.raise_deferred()
         except AnalysisError as exc:
             return (vid, "analysis-error", str(exc), [])
         fired = sorted({o.rule for o in chk.violations()})
